@@ -55,6 +55,15 @@ fn queries(tier: Tier) -> Vec<String> {
             }
         }
     }
+    // exponents of two and three digits, numerator and denominator (superscripts are printed digit by digit)
+    for u in ["m", "s", "K", "btu", "km"] {
+        for n in ["10", "12", "21", "123", "100"] {
+            v.push(format!("3 {u}^{n}"));
+            v.push(format!("1 {u}^-{n}"));
+            v.push(format!("2 mol*{u}^{n}"));
+            v.push(format!("2 mol/{u}^{n}"));
+        }
+    }
     if tier == Tier::Thorough {
         for a in VALUES {
             for b in ["+", "-", "*", "/"] {
